@@ -332,7 +332,7 @@ func (g *gen) recvDatagram() string {
 		return "\n"
 	case k < 6:
 		return fill(r, r.Range(1, 300), "")
-	case k < 7 && (g.tier == "thorough" || r.Chance(1, 8)):
+	case k < 7 && (g.tier == "thorough" || r.Chance(1, 12)):
 		// maximum UDP payload, many lines
 		var sb strings.Builder
 		for sb.Len() < 65507 {
@@ -340,7 +340,7 @@ func (g *gen) recvDatagram() string {
 			sb.WriteByte('\n')
 		}
 		return sb.String()[:65507]
-	case k < 8:
+	case k < 8 && (g.tier == "thorough" || r.Chance(1, 3)):
 		l, _ := g.longLine()
 		if len(l) > 65507 {
 			l = l[:65507]
@@ -369,8 +369,8 @@ func (g *gen) recvInput() input {
 	msgs := make([]string, n)
 	for i := range msgs {
 		msgs[i] = g.recvDatagram()
-		if n > 12 && len(msgs[i]) > 600 {
-			msgs[i] = msgs[i][:600]
+		if n > 12 && len(msgs[i]) > 300 {
+			msgs[i] = msgs[i][:300]
 		}
 	}
 	in := input{Kind: "recv", Class: "recv", NS: hlib.Pick(r, namespaces), Data: lists(msgs),
